@@ -418,6 +418,7 @@ func TestVF_C06(t *testing.T) {
 					m.NonRevocationWitness = &revocation.Witness{U: u, E: w.E, SignedAccumulator: &revocation.SignedAccumulator{Data: fs.Data, PKCounter: c.kp.Pk.Counter}}
 				})
 			}
+			m2devs["witness.sacc-dropped"] = edit2(func(m *IssueSignatureMessage) { m.NonRevocationWitness.SignedAccumulator = nil })
 			m2devs["witness.pk-counter+1"] = edit2(func(m *IssueSignatureMessage) { m.NonRevocationWitness.SignedAccumulator.PKCounter++ })
 			// a foreign (valid) witness of the same accumulator: its e is not an attribute of this credential
 			if w2, err := run.world.newWitness(); err == nil {
